@@ -168,6 +168,34 @@ def exc_outcome(ex):
 FINALISERS = ('finalise', 'seek0', 'close')
 
 
+class Headroom:
+    """The library called from a caller that has little stack left: `frames` Python frames between the call and the
+    interpreter's recursion limit (an application deep inside a framework, a recursive-descent caller, a lowered
+    sys.setrecursionlimit).  The unchanged library needs 22 frames at most for any message (measured with a profiler
+    over generated corpora, debug logging on and off); 120 are left."""
+
+    def __init__(self, frames=120, on=True):
+        self.frames = frames
+        self.on = on and not THREADED
+        self.old = None
+
+    def __enter__(self):
+        if self.on:
+            depth = 0
+            f = sys._getframe()
+            while f is not None:
+                depth += 1
+                f = f.f_back
+            self.old = sys.getrecursionlimit()
+            sys.setrecursionlimit(depth + self.frames)
+        return self
+
+    def __exit__(self, *a):
+        if self.old is not None:
+            sys.setrecursionlimit(self.old)
+        return False
+
+
 class Baton:
     """Two harness threads in strict alternation: exactly one of them runs, and the turn changes hands at every yield
     point (between two operations of a driver, around every file transfer).  A deterministic schedule for "two objects
